@@ -52,6 +52,18 @@ def canon(t: Any, params: List[str], keep_visits: bool = True) -> Any:
     return r if keep_visits else strip_visits(r)
 
 
+def first_match_as_search(t: Any) -> Any:
+    """next((e for x in it if c), default) is the search loop `for x in it: if c: return e` followed by `return default`:
+    as a value it is one of {default, e}. Applied to site-free terms before comparing with reference code."""
+    from .terms import phi
+
+    if isinstance(t, tuple):
+        if t and t[0] == "app" and t[1] == ("global", "builtins.next") and len(t[2]) == 2 and t[2][0][0] == "comp" and t[2][0][1] == "GeneratorExp" and len(t[2][0][3]) == 1:
+            return phi([first_match_as_search(t[2][1]), first_match_as_search(t[2][0][2])])
+        return tuple(first_match_as_search(x) for x in t)
+    return t
+
+
 def drop_sites(t: Any) -> Any:
     if isinstance(t, tuple):
         if t and t[0] == "app" and len(t) == 5:
